@@ -10,7 +10,7 @@ out=${MT_BUILD:-$VERIF/build}/$variant
 case $variant in
   v0|ld|dl) cc=gcc; flags="-O0 -g -DMYTH_VERIF" ;;
   v2) cc=gcc; flags="-O2 -g -DMYTH_VERIF" ;;
-  va) cc=clang; flags="-O1 -g -fsanitize=address,undefined -fno-sanitize=signed-integer-overflow,alignment -fno-omit-frame-pointer -DMYTH_VERIF" ;;
+  va) cc=clang; flags="-O1 -g -fsanitize=address,undefined -fno-sanitize=signed-integer-overflow,alignment -fno-omit-frame-pointer -DMYTH_VERIF -Dreal_pthread_attr_getstack=myth_real_pthread_attr_getstack" ;;
   c0) cc=clang; flags="-O0 -g -DMYTH_VERIF" ;;
   c2) cc=clang; flags="-O2 -g -DMYTH_VERIF" ;;
   n0) cc=gcc; flags="-O0 -g" ;;
